@@ -7,6 +7,7 @@ import (
 	_ "verifharness/props/c01"
 	_ "verifharness/props/c04"
 	_ "verifharness/props/c08"
+	_ "verifharness/props/c09"
 	_ "verifharness/props/c10"
 	_ "verifharness/props/c11"
 	_ "verifharness/props/c12"
